@@ -545,11 +545,18 @@ class Simulation:
                     self.probes["planned_fault_not_admissible"] += 1
                     continue
                 f["_used"] = True
-                if f.get("sticky") and kind == "errno":
+                if f.get("sticky") == "same" and kind == "errno":
+                    # THIS operation on THIS path keeps failing (e.g. every read of one file) while everything else works
+                    self.sticky.append({"errno": f["errno"], "actor": a.id, "name": op.name, "path": op.path})
+                elif f.get("sticky") and kind == "errno":
                     self.sticky.append({"errno": f["errno"], "actor": a.id})
-                return self._fire(a, op, kind, f.get("errno"), f.get("sticky", False))
+                return self._fire(a, op, kind, f.get("errno"), bool(f.get("sticky", False)))
         # 2. sticky conditions established earlier
         for s in self.sticky:
+            if "name" in s:
+                if s["name"] == op.name and s["path"] == op.path:
+                    return self._fire(a, op, "errno", s["errno"], True, count=False)
+                continue
             if s["errno"] in admissible(op.name):
                 return self._fire(a, op, "errno", s["errno"], True, count=False)
         # 3. random faults from the tape
